@@ -8,12 +8,12 @@ HOOK_COMMITS = ["4ce865f"]
 CHECKS = {
  "C01": ("exploration",
    "runtime monitor: slashability oracle over released signatures of seeded hostile histories (+ record-before-sign assertion at the account boundary)",
-   "Every signature released by the real signer stack over tens of thousands of generated requests (single/batch, by name/by key/by over-long key, duplicate keys, epochs incl. >= 2^63, restarts, GOMAXPROCS cycled 1..61 because batches are partitioned over workers) is verified cryptographically, attributed to (key, data) and compared pairwise with all earlier releases for that key using the consensus-spec double-vote/surround predicates. A wire slice repeats the workload over TLS/gRPC against the real daemon with SIGKILL restarts. Held on the histories explored; not a proof for all histories.",
+   "Every signature released by the real signer stack over tens of thousands of generated requests (single/batch, by name/by key/by over-long key, duplicate keys, epochs incl. >= 2^63, restarts, GOMAXPROCS cycled 1..61 because batches are partitioned over workers) is verified cryptographically, attributed to (key, data) and compared pairwise with all earlier releases for that key using the consensus-spec double-vote/surround predicates. The histories also ask the generic endpoints (single and multisign, slashable entries hidden among harmless ones) to sign the roots of conflicting messages under the slashable domain; any signature that comes back joins the released set. A wire slice repeats the workload over TLS/gRPC against the real daemon with SIGKILL restarts. Held on the histories explored; not a proof for all histories.",
    "Trusted: the harness's SSZ/signing-root code (cross-checked by verifying Dirk's own signatures), herumi BLS verification, the synthetic account/fetcher standing in for wallet files.",
    "5/C01"),
  "C02": ("exploration",
    "runtime monitor: double-proposal oracle + strict slot monotonicity over released signatures of seeded hostile histories",
-   "Every released proposal signature over generated histories (by name/by key/by over-long key, slots incl. >= 2^63, restarts, service and handler boundary, GOMAXPROCS cycled) is verified; a wire slice repeats it against the real daemon, then checked against all earlier releases for that key (same slot, different header) and against the strictly-increasing-slot clause. Held on the histories explored.",
+   "Every released proposal signature over generated histories (by name/by key/by over-long key, slots incl. >= 2^63, restarts, service and handler boundary, GOMAXPROCS cycled) is verified; a wire slice repeats it against the real daemon, then checked against all earlier releases for that key (same slot, different header) and against the strictly-increasing-slot clause. Generic-endpoint side-channel steps as in C01. Held on the histories explored.",
    "Trusted: harness SSZ roots, herumi BLS verification, synthetic accounts.",
    "5/C02"),
  "C04": ("exploration",
